@@ -414,6 +414,14 @@ func doParent(ck *Check, tier string, seed uint64, only string) int {
 	for _, c := range crashes {
 		// a dead worker is a fatal error / hang inside the code under test unless the engine itself
 		// complained (replay divergence etc.), which is a harness defect and never a verdict
+		if strings.Contains(c, "@hang:") {
+			// killed after budget+grace: a time cap is never a verdict (a slow machine or a slow leaf looks
+			// exactly like this); the run is reported as not exhaustive. Checks that must decide "never hangs"
+			// (C19) run the call under their own watchdog inside the leaf.
+			fmt.Println("TIME-CAP (no verdict):", strings.SplitN(c, "\n", 2)[0])
+			total.Capped = true
+			continue
+		}
 		if strings.Contains(c, "engine.engineError") || strings.Contains(c, "unreadable report") {
 			fmt.Println("ENGINE-ERROR:", c)
 			if exit == 0 {
